@@ -27,6 +27,7 @@ Generated once by harness/mkprops.py from harness/props_table.py + PGProperties/
 import PGProofs.DemographyMixed
 import PGProofs.DemographyThm
 import PGProofs.EndToEnd2
+import PGProofs.DemoObjThm
 
 set_option linter.all false
 set_option pp.fieldNotation.generalized false
@@ -106,6 +107,27 @@ theorem glue_link : ∀ (I : Config.Input), EndToEnd.DictInput I → Config.Vali
 /-- the generated epochs tile [0, inf) with boundaries exactly at the positive change times of the input -/
 theorem schedule_from_input : ∀ (I : Config.Input), EndToEnd.DictInput I → ∀ (o : DemoOpts) (count : ℕ), List.length (changeTimes (EndToEnd.toEvents I)) < count → epochsUpTo o (EndToEnd.toEvents I) count ≠ [] ∧ WF (List.map Epoch.toT (epochsUpTo o (EndToEnd.toEvents I) count)) 0 ∧ (∀ t ∈ changeTimes (EndToEnd.toEvents I), 0 < t → ∃ e ∈ epochsUpTo o (EndToEnd.toEvents I) count, e.start = t) ∧ ∀ e ∈ epochsUpTo o (EndToEnd.toEvents I) count, e.start = 0 ∨ e.start ∈ changeTimes (EndToEnd.toEvents I) ∧ 0 < e.start := @PG.EndToEnd.demography_schedule
 
+/-- the mutable Demography object: after ANY history of constructor / add_events / add_event / epochs / reads / Coalescent(...) the cached pop_names, n_pops are those of the events held and the events are sorted -/
+theorem object_invariant : ∀ {N : Type} [inst : LinearOrder N] (s₀ : DemoObj.State N) (evs : List (DemoObj.Ev N)) (ctor : Option (DemoObj.Ev N)) (ops : List (DemoObj.Op N)), DemoObj.Fresh (DemoObj.run DemoObj.Variant.current s₀ (DemoObj.Op.new evs ctor :: ops)).1 := @PG.DemoObj.inv_reachable
+
+/-- the events held are the stable sort by start time of everything handed over, whichever route it came -/
+theorem object_events_stable_sort : ∀ {N : Type} [inst : LinearOrder N] (s₀ : DemoObj.State N) (h : List (DemoObj.Op N)), DemoObj.startsWithNew h = true → DemoObj.StableSortOf (DemoObj.run DemoObj.Variant.current s₀ h).1.events (DemoObj.insertionLog DemoObj.Variant.current s₀ h) := @PG.DemoObj.events_eq_stable_sort
+
+/-- pop_names is the sorted set of every population mentioned so far (events of any route, sampled populations of a Coalescent) -/
+theorem object_pop_names : ∀ {N : Type} [inst : LinearOrder N] (s₀ : DemoObj.State N) (h : List (DemoObj.Op N)), DemoObj.startsWithNew h = true → (DemoObj.run DemoObj.Variant.current s₀ h).1.popNames = DemoObj.sortDedup (DemoObj.mentioned h) ∧ (DemoObj.run DemoObj.Variant.current s₀ h).1.nPops = List.length (DemoObj.sortDedup (DemoObj.mentioned h)) := @PG.DemoObj.popNames_eq_sortDedup_mentioned
+
+/-- two histories handing over permutations of the same events agree on pop_names, n_pops, on the events up to ties and on the relative order of events with different start times -/
+theorem object_order_independent : ∀ {N : Type} [inst : LinearOrder N] (s₁ s₂ : DemoObj.State N) (h₁ h₂ : List (DemoObj.Op N)), DemoObj.startsWithNew h₁ = true → DemoObj.startsWithNew h₂ = true → DemoObj.noCoal h₁ = true → DemoObj.noCoal h₂ = true → List.Perm (DemoObj.userEvents h₁) (DemoObj.userEvents h₂) → (DemoObj.run DemoObj.Variant.current s₁ h₁).1.popNames = (DemoObj.run DemoObj.Variant.current s₂ h₂).1.popNames ∧ (DemoObj.run DemoObj.Variant.current s₁ h₁).1.nPops = (DemoObj.run DemoObj.Variant.current s₂ h₂).1.nPops ∧ DemoObj.StableSortOf (DemoObj.run DemoObj.Variant.current s₁ h₁).1.events (DemoObj.userEvents h₁) ∧ DemoObj.StableSortOf (DemoObj.run DemoObj.Variant.current s₂ h₂).1.events (DemoObj.userEvents h₂) ∧ List.Perm (DemoObj.run DemoObj.Variant.current s₁ h₁).1.events (DemoObj.run DemoObj.Variant.current s₂ h₂).1.events ∧ ∀ (a b : DemoObj.Ev N), a ∈ DemoObj.userEvents h₁ → b ∈ DemoObj.userEvents h₁ → a.start < b.start → List.Sublist [a, b] (DemoObj.run DemoObj.Variant.current s₁ h₁).1.events ∧ List.Sublist [a, b] (DemoObj.run DemoObj.Variant.current s₂ h₂).1.events := @PG.DemoObj.popNames_order_independent
+
+/-- Coalescent(n, demography) on an up-to-date object: names complete, lineage dict = sample + zeros, the added PopSizeChanges mentions exactly the sampled names no event mentions, earlier events untouched -/
+theorem object_coalescent_init : ∀ {N : Type} [inst : LinearOrder N] (s : DemoObj.State N) (sample : List (N × ℕ)) (newId : ℕ), DemoObj.Fresh s → have r := DemoObj.coalescentInit DemoObj.Variant.current s sample newId; have sampled := List.map (fun x ↦ x.1) sample; (DemoObj.Fresh r.1 ∧ (∀ x ∈ sampled, x ∈ r.1.popNames) ∧ ∀ e ∈ r.1.events, ∀ x ∈ e.names, x ∈ r.1.popNames) ∧ ((∀ (x : N), x ∈ List.map (fun x ↦ x.1) r.2.2 ↔ x ∈ sampled ∨ x ∈ s.popNames) ∧ (∀ (x : N), x ∈ List.map (fun x ↦ x.1) r.2.2 ↔ x ∈ r.1.popNames) ∧ sample <+: r.2.2 ∧ (∀ p ∈ r.2.2, p ∈ sample ∨ p.2 = 0 ∧ p.1 ∉ sampled) ∧ (List.Nodup sampled → List.Nodup (List.map (fun x ↦ x.1) r.2.2))) ∧ ((r.2.1 = none ↔ ∀ x ∈ sampled, ∃ e ∈ s.events, x ∈ e.names) ∧ (r.2.1 = none → r.1 = s) ∧ ∀ (ns : List N), r.2.1 = some ns → (∀ (x : N), x ∈ ns ↔ x ∈ sampled ∧ ∀ e ∈ s.events, x ∉ e.names) ∧ List.Pairwise (fun x1 x2 ↦ x1 < x2) ns ∧ List.Perm r.1.events (s.events ++ [{ id := newId, start := 0, names := ns }])) ∧ List.Sublist s.events r.1.events := @PG.DemoObj.coalescentInit_complete
+
+/-- in every history every Coalescent(...) meets an up-to-date object -/
+theorem object_coalescent_init_reachable : ∀ {N : Type} [inst : LinearOrder N] (s₀ : DemoObj.State N) (h : List (DemoObj.Op N)), DemoObj.startsWithNew h = true → DemoObj.Fresh (DemoObj.run DemoObj.Variant.current s₀ h).1 := @PG.DemoObj.coalescentInit_on_fresh
+
+/-- add_event without _prepare_events (a seeded change): pop_names misses a specified population and Coalescent overrides its size -/
+theorem object_stale_add_event : (DemoObj.run DemoObj.Variant.staleadd { } DemoObj.staleHistory).2 = [DemoObj.Obs.none, DemoObj.Obs.none, DemoObj.Obs.popNames [] 0] ∧ (∃ e ∈ (DemoObj.run DemoObj.Variant.staleadd { } DemoObj.staleHistory).1.events, 7 ∈ e.names) ∧ (DemoObj.run DemoObj.Variant.current { } DemoObj.staleHistory).2 = [DemoObj.Obs.none, DemoObj.Obs.none, DemoObj.Obs.popNames [7] 1] ∧ (DemoObj.coalescentInit DemoObj.Variant.staleadd (DemoObj.run DemoObj.Variant.staleadd { } DemoObj.staleHistory).1 [(7, 2)] 1).2.1 = some [7] ∧ ¬((DemoObj.coalescentInit DemoObj.Variant.staleadd (DemoObj.run DemoObj.Variant.staleadd { } DemoObj.staleHistory).1 [(7, 2)] 1).2.1 = none ↔ ∀ x ∈ List.map (fun x ↦ x.1) [(7, 2)], ∃ e ∈ (DemoObj.run DemoObj.Variant.staleadd { } DemoObj.staleHistory).1.events, x ∈ e.names) ∧ (DemoObj.coalescentInit DemoObj.Variant.staleadd (DemoObj.run DemoObj.Variant.staleadd { } DemoObj.staleHistory).1 [(7, 2)] 1).1.events = [DemoObj.staleEv, { id := 1, start := 0, names := [7] }] ∧ (DemoObj.coalescentInit DemoObj.Variant.current (DemoObj.run DemoObj.Variant.current { } DemoObj.staleHistory).1 [(7, 2)] 1).2.1 = none := @PG.DemoObj.staleadd_counterexample
+
 /-! ## hand-written part: glue, non-vacuity examples, counterexamples -/
 /-- non-vacuity: a schedule with a discrete event and a discretised window tiles [0, ∞) in 6 epochs -/
 theorem example_schedule :
@@ -141,4 +163,11 @@ end PG.C05
 #print axioms PG.C05.grid_point_skipped
 #print axioms PG.C05.glue_link
 #print axioms PG.C05.schedule_from_input
+#print axioms PG.C05.object_invariant
+#print axioms PG.C05.object_events_stable_sort
+#print axioms PG.C05.object_pop_names
+#print axioms PG.C05.object_order_independent
+#print axioms PG.C05.object_coalescent_init
+#print axioms PG.C05.object_coalescent_init_reachable
+#print axioms PG.C05.object_stale_add_event
 #print axioms PG.C05.example_schedule
